@@ -470,3 +470,41 @@ func VC08Any(tbl, op, intr int) {
 	}
 	vAssert("cancel-released", vCancelReleased())
 }
+
+// ---- Run, change the breakpoints, Run again ------------------------------------
+
+// The breakpoint set is consulted afresh by every Run: a first Run (set B1), then
+// the set is replaced by B2 (mode 0: a new map; mode 1: the same map edited in
+// place - one arbitrary address removed, one added), then a second Run.  Both
+// Runs are compared with a Step-driven twin.  Programs: HALT / NOP / INC A.
+func VC08Twice(mode, k int) {
+	var s States
+	vHavoc(&s, "s")
+	d1 := &vScript{bound: k, shapes: 3}
+	d2 := &vScript{bound: k, shapes: 3}
+	c1 := &CPU{States: s, Memory: d1}
+	c2 := &CPU{States: s, Memory: d2}
+	c1.BreakPoints = vMapU16Set("bp", 2)
+	c2.BreakPoints = vMapU16Set("bp", 2)
+	err := c1.Run(context.Background())
+	wk, _ := vTwinRun(c2, k)
+	vAssert("first-result", vErrKind(err) == wk)
+	vAssert("first-state", c1.States == c2.States)
+	if mode == 0 {
+		c1.BreakPoints = vMapU16Set("bq", 2)
+		c2.BreakPoints = vMapU16Set("bq", 2)
+	} else {
+		del, add := vU16("del"), vU16("add")
+		delete(c1.BreakPoints, del)
+		delete(c2.BreakPoints, del)
+		c1.BreakPoints[add] = struct{}{}
+		c2.BreakPoints[add] = struct{}{}
+	}
+	err = c1.Run(context.Background())
+	wk, _ = vTwinRun(c2, k)
+	vAssert("second-result", vErrKind(err) == wk)
+	vAssert("second-steps", d1.fetches == d2.fetches)
+	vAssert("second-state", c1.States == c2.States)
+	vAssert("second-HALT", c1.HALT == c2.HALT)
+	vAssert("cancel-released", vCancelReleased())
+}
